@@ -17,7 +17,8 @@ class SpyRng:
         self.calls = []
 
     def choice(self, a, size=None, replace=True, p=None):
-        self.calls.append({"a": a, "size": size, "replace": replace, "p": None if p is None else np.asarray(p, float).copy()})
+        self.calls.append({"a": a, "size": size, "replace": replace, "p": None if p is None else np.asarray(p, float).copy(),
+                           "p_dtype": (p.dtype if isinstance(p, np.ndarray) else None)})
         assert size == len(self.idx), (size, len(self.idx))
         return self.idx
 
@@ -56,8 +57,16 @@ def run(ctx):
         lq = [ctx.rng.gauss(0, 2) for _ in range(n)]
         if ctx.rng.random() < 0.2:
             ll = [ll[0]] * n
+        if rep % 5 == 3:
+            # a population as it looks after an earlier resampling step under a very peaked likelihood: a few distinct particles, each
+            # present several times, log-likelihoods of magnitude 1e5..1e6 (the sum over the tied best ones is what must come out as 1)
+            base_ = [-(10 ** ctx.rng.choice([5, 5.5, 6])) * (1 + 0.7 * ctx.rng.random()) for _ in range(max(1, n // 4))]
+            base_[0] = max(base_)
+            ll = [base_[0] if ctx.rng.random() < 0.7 else ctx.rng.choice(base_) for _ in range(n)]
         b0 = ctx.rng.choice([0.0, 0.1, 0.5])
         b1 = ctx.rng.choice([b0 + 0.05, b0 + 0.3, 1.0])
+        if rep % 5 == 3:
+            b1 = 1.0
         size = ctx.rng.choice([None, None, n, 2 * n, max(1, n // 2), 1])
         if rep % 6 == 5:
             # no temperature move, only a change of size (what the final enlargement does at beta = 1): every particle has the same
@@ -122,8 +131,15 @@ def run(ctx):
             continue
         if any(abs(float(p[i]) - want[i]) > tolp * (want[i] + 1e-300) + 1e-300 and abs(float(p[i]) - want[i]) > tolp for i in range(n)):
             ctx.violation(f"probabilities:{nsname}:{width}", f"p={p[:5]} but normalised incremental weights are {want[:5]}", case)
-        if abs(float(np.sum(p)) - 1.0) > 1e-3 or np.any(p < 0):
-            ctx.violation("not-a-distribution", f"sum p = {float(np.sum(p))}", case)
+        # numpy.random.Generator.choice refuses a vector whose (compensated, binary64) sum is further from 1 than sqrt(eps) of the
+        # vector's own dtype (and of binary64 at least): the step would raise instead of drawing
+        p_arr = np.asarray(p)
+        atol = float(np.sqrt(np.finfo(np.float64).eps))
+        if c["p_dtype"] is not None and np.issubdtype(c["p_dtype"], np.floating):
+            atol = max(atol, float(np.sqrt(np.finfo(c["p_dtype"]).eps)))
+        psum = math.fsum(float(v) for v in p_arr.reshape(-1))
+        if abs(psum - 1.0) > atol or np.any(p_arr < 0):
+            ctx.violation(f"not-a-distribution:{width}", f"sum p = {psum!r} (dtype {c['p_dtype']}): numpy's choice() accepts |sum-1| <= {atol:.3g}", case)
         # ---- rows: exact copies of the source rows named by idx
         ox = np.asarray(nsutil.to_list(out.x), float).reshape(-1, d)
         oll, olp, olq = nsutil.to_list(out.log_likelihood), nsutil.to_list(out.log_prior), nsutil.to_list(out.log_q)
